@@ -476,17 +476,18 @@ struct Interp {
             return;
         }
         if (n == "dup") {
-            if (m[DUPS].exists) { c01_del(DUPS); m[DUPS].exists = false; }
-            int r = op.i(0) & 1 ? c01_obj_dup(cur, DUPS) : c01_dup(cur, DUPS);
+            int dst = (cur == SUBJ) ? DUPS : SUBJ;   // the copy replaces whichever of the two is not current
+            if (m[dst].exists) { c01_del(dst); m[dst].exists = false; }
+            int r = op.i(0) & 1 ? c01_obj_dup(cur, dst) : c01_dup(cur, dst);
             VT_CHECK(ctx, r == 1, "mismatch", "return; dup returned NULL");
-            m[DUPS].exists = true;
-            m[DUPS].text = mo.text;
+            m[dst].exists = true;
+            m[dst].text = mo.text;
             ctx.label("dup");
             if (mo.text.empty()) ctx.label("dup:empty");
             return;
         }
         if (n == "swap") {   // continue on the copy / on the original
-            if (m[DUPS].exists) { cur = (cur == SUBJ) ? DUPS : SUBJ; ctx.label("op-on-dup"); interesting = true; }
+            if (m[DUPS].exists && m[SUBJ].exists) { cur = (cur == SUBJ) ? DUPS : SUBJ; ctx.label("op-on-dup"); interesting = true; }
             return;
         }
         // ---------------- queries
@@ -722,8 +723,9 @@ rc::Gen<Op> gen_op() {
         if (k < 52) { o.name = "downcase"; return o; }
         if (k < 55) { o.name = "clear"; o.ints = {(long)*rc::gen::elementOf(std::string("x #\xfe"))}; return o; }
         if (k < 59) { o.name = "sprintf"; o.ints = {*range(0, 5), *range(-100000, 100000), *range(-5000, 5000), *gen_rep()}; o.strs = {*gen_unit()}; return o; }
-        if (k < 62) { o.name = "done"; return o; }
-        if (k < 66) { return *gen_ctor("re"); }
+        if (k < 60) { o.name = "done"; return o; }
+        if (k < 62) { return *gen_ctor("re"); }
+        if (k < 66) { o.name = *range(0, 1) ? "append_ptr" : "prepend_ptr"; o.ints = {*gen_rep(), 0}; o.strs = {*gen_unit()}; return o; }
         if (k < 69) { o.name = "dup"; o.ints = {*range(0, 1)}; return o; }
         if (k < 72) { o.name = "swap"; return o; }
         if (k < 77) { o.name = *range(0, 1) ? "index" : "rindex"; o.ints = {(long)(unsigned char)*rc::gen::elementOf(kAlpha + "q\xe9")}; return o; }
@@ -753,6 +755,8 @@ rc::Gen<Case> gen_case(int max_ops) {
         Case c;
         c.push_back(mk("cls", {*range(0, 1)}));
         c.push_back(*gen_ctor(""));
+        long nh = *range(0, 3);   // helpers up front so that object-argument ops usually have a partner
+        for (long h = 0; h < nh; h++) c.push_back(mk("helper", {h, *range(0, 5) == 0 ? 1 : 0, *gen_rep()}, {*gen_unit()}));
         auto ops = *rc::gen::container<std::vector<Op>>(gen_op());
         // size-scaled length comes from the container generator; cap
         if ((int)ops.size() > max_ops) ops.resize((size_t)max_ops);
